@@ -6,6 +6,7 @@ import (
 	"fmt"
 	"math/big"
 	"sort"
+	"strings"
 	"testing"
 
 	"cosmossdk.io/math"
@@ -429,3 +430,97 @@ func TestC20Redundant(t *testing.T) {
 }
 
 var _ = sort.Strings
+
+// TestC20Session: one check state serving several transactions, as a node's mempool does between two
+// commits: each transaction is checked (CheckTx or ReCheckTx) on a branch of the check state that is
+// written back when it is admitted. "Already processed" is relative to that check state: a deposit
+// admitted earlier in the session makes a later copy of it redundant and the next sequence fresh.
+func TestC20Session(t *testing.T) {
+	rec := evid.For("C20")
+	runRapid(t, 800, 10000, func(rt *rapid.T) {
+		c := rec.Begin()
+		c.Class("session")
+		tc := newTwoChain(tcOpts{nExecutors: rapid.IntRange(1, 2).Draw(rt, "executors")})
+		l2 := tc.l2
+		exec := tc.executors[rapid.IntRange(0, len(tc.executors)-1).Draw(rt, "relayer")].Str
+		n := rapid.IntRange(0, 3).Draw(rt, "processed")
+		var pend []*pendingDeposit
+		for i := 0; i < n+6; i++ {
+			to := tc.users[1].Str
+			if rapid.IntRange(0, 3).Draw(rt, "refunded") == 0 {
+				to = "not-an-l2-address"
+			}
+			_, p := tc.l1Deposit(tc.users[0], to, coinOf("uinit", int64(10+i)), nil)
+			pend = append(pend, p)
+		}
+		for i := 0; i < n; i++ {
+			if r := l2.Deliver(relayMsg(exec, pend[i])); !r.OK() {
+				panic(r.Err)
+			}
+		}
+		checkState, _ := l2.Ctx.CacheContext()
+		checkNext := uint64(n + 1)
+		var log []string
+		shape := ""
+		rechecked := false
+		ntx := rapid.IntRange(2, 5).Draw(rt, "txs")
+		for k := 0; k < ntx; k++ {
+			var msgs []sdk.Msg
+			txShape := ""
+			nd, fresh := 0, 0
+			expectNext := checkNext
+			for i := rapid.IntRange(1, 3).Draw(rt, "nmsgs"); i > 0; i-- {
+				switch rapid.SampledFrom([]string{"stale", "fresh", "fresh", "other"}).Draw(rt, "kind") {
+				case "stale":
+					if expectNext <= 1 {
+						continue
+					}
+					msgs = append(msgs, relayMsg(exec, pend[rapid.IntRange(0, int(expectNext)-2).Draw(rt, "which")]))
+					nd++
+					txShape += "s"
+				case "fresh":
+					if int(expectNext) > len(pend) {
+						continue
+					}
+					msgs = append(msgs, relayMsg(exec, pend[expectNext-1]))
+					expectNext++
+					nd++
+					fresh++
+					txShape += "f"
+				case "other":
+					msgs = append(msgs, banktypes.NewMsgSend(tc.users[0].Addr, tc.users[1].Addr, sdk.NewCoins(coinOf("stake", 1))))
+					txShape += "o"
+				}
+			}
+			mode := rapid.SampledFrom([]string{"check", "check", "recheck"}).Draw(rt, "mode")
+			txCtx, write := checkState.CacheContext()
+			if mode == "recheck" {
+				txCtx = txCtx.WithIsReCheckTx(true)
+				rechecked = true
+			} else {
+				txCtx = txCtx.WithIsCheckTx(true)
+			}
+			_, err := ante.NewRedundantBridgeDecorator(l2.K).AnteHandle(txCtx, feeTx{msgs: msgs}, false, func(ctx sdk.Context, tx sdk.Tx, sim bool) (sdk.Context, error) { return ctx, nil })
+			log = append(log, fmt.Sprintf("tx %d %s %q (check state expects sequence %d) -> %v", k, mode, txShape, checkNext, err))
+			if nd > 0 && fresh == 0 {
+				if !errors.Is(err, opchildtypes.ErrRedundantTx) {
+					rt.Fatalf("C20 violated: a transaction of only already processed deposit finalizations (relative to the check state) was not rejected as redundant (err %v)\nsession:\n%s", err, strings.Join(log, "\n"))
+				}
+			} else if err != nil {
+				rt.Fatalf("C20 violated: a transaction with a fresh deposit finalization (or none at all) did not pass: %v\nsession:\n%s", err, strings.Join(log, "\n"))
+			}
+			if err == nil {
+				write()
+				checkNext = expectNext
+			}
+			shape += mode[:1] + txShape + ";"
+		}
+		if rechecked {
+			c.Class("session/with-recheck")
+			c.NonTrivial()
+			c.Shape("session/" + shape)
+		}
+		c.Sample(func() interface{} { return map[string]interface{}{"session": log} })
+		c.Done()
+	})
+}
